@@ -100,7 +100,7 @@ fn names32() -> usize {
 
 /// Real-API exercise: view the image as ELF-sections tag, iterate, decode every
 /// item, resolve names when `with_names`.
-fn exercise(ptr: *const u8, len: usize, with_names: bool, max_steps: usize) -> Transcript {
+pub(crate) fn exercise(ptr: *const u8, len: usize, with_names: bool, max_steps: usize) -> Transcript {
     use mb2_model::panics::catch;
     let mut rec = Rec::new(ptr as usize);
     let slice = unsafe { core::slice::from_raw_parts(ptr, len) };
